@@ -7,7 +7,7 @@ open PyBase
 let exn_name = function
   | ValueError -> "ValueError" | KeyError -> "KeyError" | TypeError -> "TypeError"
   | AttributeError -> "AttributeError" | StructError -> "StructError"
-  | AssertionError -> "AssertionError" | OtherExn -> "OtherExn"
+  | AssertionError -> "AssertionError" | AssemblerError -> "AssemblerError" | OtherExn -> "OtherExn"
 
 let parse_arg (t : string) : arg =
   let k = Stdlib.String.sub t 0 2 and v = Stdlib.String.sub t 2 (Stdlib.String.length t - 2) in
